@@ -236,6 +236,8 @@ class DaskPCA(PCA):
         X -= self.mean_
 
         if solver in {"full", "tsqr"}:
+            # tsqr needs the feature axis in a single block
+            X = X.rechunk({1: -1})
             U, S, V = da.linalg.svd(X)
         else:
             # randomized
